@@ -478,6 +478,38 @@ Theorem C02_sleep_wait_outlasts_closure_refuted :
 Proof. exact sleep_wait_outlasts_closure_refuted. Qed.
 Print Assumptions C02_sleep_wait_outlasts_closure_refuted.
 
+(* ---------------- the copy loop and the stats backend; retryable read errors ---------------- *)
+
+(* no cloud-control round trip belongs inside a copy loop: whatever the stats backend does — answers early, late or never — a
+   direction that gets m+1 steps has copied all m chunks (harness obligation on the real code: >= 3 MiB per direction with the
+   cloud-control double stuck from the attach on; key `copy-loop-waits-for-stats-backend`) *)
+Theorem C02_copy_independent_of_stats_backend :
+  forall m (sched : list nat), m + 1 <= count_occ Nat.eq_dec sched 0 ->
+  s_copied (fst (stats_run None m sched)) = m /\ nth_error (snd (stats_run None m sched)) 0 = Some SCopyDone.
+Proof. exact copy_independent_of_stats_backend. Qed.
+Print Assumptions C02_copy_independent_of_stats_backend.
+
+(* refuted: a synchronous traffic report after every b-th chunk — with a silent backend the direction never gets past chunk b,
+   however many steps it is given *)
+Theorem C02_report_in_loop_freezes_refuted :
+  forall n, s_copied (fst (stats_run (Some 2) 5 (repeat 0 n))) <= 2.
+Proof. exact report_in_loop_freezes_refuted. Qed.
+Print Assumptions C02_report_in_loop_freezes_refuted.
+
+(* a retryable read error (both a timeout and temporary) does not end the stream: the bytes after it still belong to what the end
+   sent, and C02_copy/bridge_complete_if_no_early_close deliver everything `readable` — also through adapter-wrapped ends
+   (harness obligation; key `incomplete-without-early-close`) *)
+Theorem C02_retryable_read_error_does_not_end_the_stream :
+  forall d rs, readable ({| r_data := d; r_end := rkind_of_error true true |} :: rs) = d ++ readable rs.
+Proof. exact readable_retry. Qed.
+Print Assumptions C02_retryable_read_error_does_not_end_the_stream.
+
+(* refuted: turning any read error into end-of-stream (a sticky `closed` flag set on a transient timeout) loses the later bytes *)
+Theorem C02_fabricated_eof_after_timeout_loses_bytes_refuted :
+  exists d rs, readable ({| r_data := d; r_end := RFatal |} :: rs) <> d ++ readable rs.
+Proof. exact fabricated_eof_loses_bytes. Qed.
+Print Assumptions C02_fabricated_eof_after_timeout_loses_bytes_refuted.
+
 (* ---------------- (4) the server forgets the tunnel ---------------- *)
 
 (* registry_forgets: any number of startSourceBridge callers, any tunnel ids (duplicates included), every interleaving
